@@ -40,7 +40,12 @@ def run(ctx):
         big = SimpleShape(JordanCurve.from_ctrlpoints([[(float(x), float(y)) for x, y in c] for c in rounded([(-9, -9), (9, -8), (8, 9), (-8, 8)], cubic=True)]))
         yield "cubic-with-hole", ConnectedShape([big, ~Primitive.square(side=2)])
         yield "two-components", DisjointShape([Primitive.circle(radius=1, center=(-5, 0), ndivangle=4), Primitive.square(side=2, center=(5, 0))])
+        # an unbounded component together with bounded ones: the complement of a ring = outside + island
+        yield "outside-plus-island", ~(Primitive.square(side=8) - Primitive.square(side=4))
+        yield "outside-plus-curved-island", (~Primitive.square(side=10.0)) | Primitive.circle(radius=1.0, ndivangle=4)
+        yield "outside-plus-two-islands", ~ConnectedShape([Primitive.square(side=20), ~Primitive.square(side=2, center=(-4, 0)), ~Primitive.square(side=2, center=(4, 0))])
 
+    replot = {"simple", "connected", "disjoint", "circle", "rounded-deg2", "cubic-with-hole", "two-components"}
     for name, S in subjects():
         before = copy.deepcopy(S)
         fig, ax = plt.subplots()
@@ -101,7 +106,33 @@ def run(ctx):
         if any(float(c) < 0 for c in comps):
             ctx.check(ax.get_facecolor() != bg0, "unbounded component: background not coloured", desc)
         ctx.check(S == before and core.eshape(S) == core.eshape(before), "plotting modified the shape", desc)
+        ctx.check(all(set(vars(j)) == set(vars(jb)) for j, jb in zip(S.jordans, before.jordans)), "plotting left new attributes on the curves of the shape", desc)
         plt.close(fig)
+        # plot again after an in-place transformation: the second drawing must follow the moved shape
+        if name in replot:
+            S.move(5, 1); S.scale(2, 0.5)
+            fig2, ax2 = plt.subplots()
+            ShapePloter(fig=fig2, ax=ax2).plot(S)
+            patches2 = [p for p in ax2.patches if isinstance(p, PathPatch)]
+            lines2 = [p for p in patches2 if p.get_facecolor()[3] == 0]
+            fills2 = [p for p in patches2 if p.get_facecolor()[3] != 0]
+            comps2 = list(S.subshapes) if isinstance(S, DisjointShape) else [S]
+            ok = len(lines2) == sum(len(c.jordans) for c in comps2) and len(fills2) == len(comps2)
+            for j, patch in zip([j for c in comps2 for j in c.jordans], lines2):
+                ans = decode(patch)
+                if ans in ("reject", "bad-op"):
+                    ok = False; continue
+                t = core.Toks(ans); got = t.lst(t.jordan)
+                ok = ok and close(got, expected([j]), 2e-6)
+            for comp, patch in zip(comps2, fills2):
+                ans = decode(patch)
+                if ans in ("reject", "bad-op"):
+                    ok = False; continue
+                t = core.Toks(ans); got = t.lst(t.jordan)
+                ok = ok and close(got, expected(comp.jordans), 1e-9)
+            ctx.case("replot-after-transform", name)
+            ctx.check(ok, "second plot after an in-place move/scale does not retrace the moved boundary", desc)
+            plt.close(fig2)
     # Empty / Whole
     for nm, S in (("empty", EmptyShape()), ("whole", WholeShape())):
         fig, ax = plt.subplots()
